@@ -29,7 +29,7 @@ func Props() []*harness.Prop {
 }
 
 var (
-	uObjs  = []string{"doc:1", "doc:2", "group:1"}
+	uObjs  = []string{"doc:1", "doc:2", "group:1", "docs:1"} // "docs": a type whose name starts with another type's name
 	uRels  = []string{"viewer", "member"}
 	uUsers = []string{"user:a", "user:b", "user:*", "group:1#member", "doc:2", "group:1#viewer", "doc:2#member", "doc:2#viewer"}
 )
